@@ -121,6 +121,24 @@ CLAIMS = {
         "disjointness keeps prefix and suffix borders ordered; every loop steps a counter/iterator or advances by a non-empty keyword or by a returned term "
         "length (reviewed exception), every recursive segment call gets a strictly shorter slice.",
    note="Trusted: rustc MIR, the reviewed table and its invariants ('a returned border never exceeds the slice it was computed on'), nar_dev_utils matching semantics, axioms as C04."),
+ "C12": dict(
+   level="other", design="DESIGN.md §4 C12",
+   technique="static analysis: who-may-construct / dominating-validation rules over MIR (call graph reach of parser and fold), edge-avoiding reachability for the non-empty-name rule, panic-edge inventory for formatters",
+   text="Within everything reachable from the enum parser and the fold: truth/budget values with components are aggregated only inside the validating "
+        "constructors, whose fields are validate_01 results in position, and every argument reaching them is range-checked on a dominating edge or is a "
+        "try_validate_01 payload; the image index is written only by the range-tested constructor or as the first-placeholder position after removal; every "
+        "named-atom construction from external text lies behind a non-empty test (edge-avoiding reachability in fold_atom + distinct prefixes); compounds/sets "
+        "are returned only behind is_empty==false and exact length tests; the enum formatter and the Typst renderer have no panic edge outside the reviewed table.",
+   note="Trusted: rustc MIR, reviewed panic-site table, axioms of C04; identifier well-formedness beyond non-emptiness is not decided."),
+ "C16": dict(
+   level="other", design="DESIGN.md §4 C16",
+   technique="static analysis: panic-edge inventory (Typst scope), must-pass-through dominator rule for post-processing, constant-table distinctness and variant->markup injectivity from HIR",
+   text="Totality: the Typst renderer's reachable functions have exactly the six reviewed index sites (guards re-extracted each run) and only iterator-driven "
+        "loops. Normalisation: in all seven FormatTo<&FormatterTypst> impls post_process_whitespace dominates the return, nothing is appended afterwards and the "
+        "returned value is the processed string; the function itself trims and drops a char only when it and its predecessor are both whitespace. Unambiguity "
+        "(necessary conditions only): markup constants pairwise distinct per role, (feature, brackets) injective per category, non-empty connecters/copulas, "
+        "three-way arity layout always emits connecter and all components, atom names go through to_debug. Injectivity over all value pairs is not decided.",
+   note="Trusted: rustc HIR/MIR, reviewed table, ToDebug quoting, finite terms."),
 }
 
 NOT_YET = "check not built yet (DESIGN.md §8 build order); will be claimed once its rules run"
